@@ -43,6 +43,10 @@ RULES: Dict[str, Callable] = {
     "R-PRODAXES": _cached("R-PRODAXES", anchored.run_prodaxes),
     "R-REGISTRAR": _cached("R-REGISTRAR", anchored.run_registrar),
     "R-OUTER": _cached("R-OUTER", anchored.run_outer),
+    "R-NONE": _cached("R-NONE", anchored.run_none),
+    "R-CALLTAIL": _cached("R-CALLTAIL", anchored.run_calltail),
+    "R-BINDEX": _cached("R-BINDEX", anchored.run_bindex),
+    "R-EXPDTYPE": _cached("R-EXPDTYPE", construct.run_expdtype),
     "R-GRAD": _cached("R-GRAD", structure.run_grad),
     "R-ALIGNFN": _cached("R-ALIGNFN", structure.run_alignfn),
     "R-NAMES": _cached("R-NAMES", construct.run_names),
@@ -136,6 +140,8 @@ PLAN: Dict[str, dict] = {
             G("R-TWIN", "the polynomial and the numeric branch of the evaluation loop receive the same operands"),
             G("R-CARRIER", "the broadcast carrier promotes narrow argument dtypes (value independent of the carrying type)"),
             G("R-OUTER", "outer (used for coefficient x term) flattens both operands like numpy.outer"),
+            G("R-CALLTAIL", "non-constant results are re-aligned with the evaluated polynomial's indeterminates"),
+            G("R-OPT-PINNED", "alignment keeps one layout under every option setting (operands with different name sets)", only=in_files("numpoly/align.py")),
             G("R-UNSIGNED", "no caller value meets an unsanitised uint32 exponent (value independent of the argument's type)", only=in_funcs("call")),
         ],
         "explanation": "call(): branches raising TypeError for an unknown and for a doubly supplied indeterminate exist and every "
@@ -152,7 +158,7 @@ PLAN: Dict[str, dict] = {
             G("R-FINAL", "metadata set in __new__ equals the set copied in __array_finalize__"),
             G("R-NAMES", "constructors fed with raw storage / exponent rows receive the input's names"),
             G("R-PAIR", "exponents and coefficients are paired by one traversal order", only=no_msg("monoms")),
-            G("R-OPT-LAYERS", "retain_* options only replace an omitted (None) argument"),
+            G("R-OPT-LAYERS", "retain_* options only replace an omitted (None) argument", only=msg("'retain_")),
             G("R-CLEAN", "exactly the all-zero non-constant terms and the unused names are dropped", only=in_funcs("remove_redundant_coefficients", "remove_redundant_names")),
             G("R-CAST", "every coefficient array is cast to the coefficient dtype before the raw write"),
         ],
@@ -181,6 +187,7 @@ PLAN: Dict[str, dict] = {
             G("R-OPS", "/, %, divmod and reflected forms route to poly_divide/poly_remainder/poly_divmod, components 0/1", only=lambda f: any(k in f.function for k in ("div", "mod", "remainder"))),
             S("R-ALIGN", "dividend and divisor are aligned on entry and after every reduction step"),
             G("R-UNSIGNED", "the exponent subtraction is guarded by the candidate selection", only=in_funcs("poly_divmod", "get_division_candidate")),
+            G("R-OPT-PINNED", "alignment keeps one layout under every option setting (operands with different name sets)", only=in_files("numpoly/align.py")),
         ],
         "explanation": "Third sentence in full (operator routing with operand order, poly_divide/poly_remainder = components 0/1 of "
                        "poly_divmod); inside the loop get_division_candidate only ever receives operands that came out of one "
@@ -198,6 +205,7 @@ PLAN: Dict[str, dict] = {
             G("R-GRAD", "gradient stacks derivative over all names in order; hessian = gradient of gradient"),
             G("R-ALIGNFN", "the re-alignment after each step keeps the indeterminates in integer index order", only=msg("sorted by int", "sort key")),
             S("R-ALIGN", "derivative re-aligns with the reference after each variable"),
+            G("R-OPT-PINNED", "alignment keeps one layout under every option setting (operands with different name sets)", only=in_files("numpoly/align.py")),
         ],
         "explanation": "derivative: the decrement of the uint32 exponent column is applied only to rows filtered by 'column > 0' "
                        "(so it holds under every retain_* setting); the differentiated column index is looked up in the names of the "
@@ -212,6 +220,7 @@ PLAN: Dict[str, dict] = {
             G("R-STABLE", "the monomial order itself is platform independent"),
             S("R-ORDER", "operands of the comparison ufuncs in parameter order"),
             S("R-ALIGN", "columns compared by position only after alignment"),
+            G("R-OPT-PINNED", "alignment keeps one layout under every option setting (operands with different name sets)", only=in_files("numpoly/align.py")),
         ],
         "explanation": "greater/greater_equal/less/less_equal walk the aligned terms in ascending glexsort(sort_graded, "
                        "sort_reverse) order without break, overwrite the verdict only where the two coefficients differ, with the "
@@ -246,6 +255,8 @@ PLAN: Dict[str, dict] = {
             G("R-GETITEM", "the same index applied to every column"),
             G("R-VALUES", "the structured storage handed to numpy honours the strides of views"),
             S("R-ALIGN", "joining functions align first"),
+            S("R-NONE", "shape / axis / index arguments are never mistaken for 'omitted' when they are 0 or ()"),
+            G("R-OPT-PINNED", "alignment keeps one layout under every option setting (operands with different name sets)", only=in_files("numpoly/align.py")),
             S("R-DTYPE", "joined / selected results take a dtype depending on all operands", only=COMBINING),
         ],
         "explanation": "Each shape function hands the raw structured storage to the numpy function it is registered for, with all "
@@ -261,6 +272,9 @@ PLAN: Dict[str, dict] = {
             S("R-DELEGATE", "linear reductions dispatch their namesake per column"),
             S("R-FWD", "axis/keepdims/n/prepend/append used and forwarded"),
             S("R-ALIGN", "diff/inner/outer combine columns only after alignment"),
+            S("R-DTYPE", "joined buffers take a dtype depending on all operands", only=COMBINING),
+            S("R-NONE", "axis / n / prepend / append are never mistaken for 'omitted' when they are 0"),
+            G("R-OPT-PINNED", "alignment keeps one layout under every option setting (operands with different name sets)", only=in_files("numpoly/align.py")),
             S("R-ORDER", "operand order of non-commutative delegates"),
             S("R-SIG", "prod/matmul reach a signature-valid reshape"),
             G("R-REG", "add.reduce / add.accumulate / method spellings reach the same function", only=lambda f: any(n in f.function + f.message + f.construct for n in ("sum", "cumsum", "mean", "prod", "diff", "inner", "outer", "matmul", "det", "REDUCE_MAPPINGS", "ACCUMULATE_MAPPINGS"))),
@@ -282,6 +296,7 @@ PLAN: Dict[str, dict] = {
             S("R-SIG", "every numpy call binds"),
             G("R-ALIGNFN", "binary mirrored functions broadcast their operands like numpy (align_shape guard)", only=msg("align_shape: guard")),
             S("R-DTYPE", "selected / joined results keep numpy's promoted dtype", only=COMBINING),
+            S("R-NONE", "axis / shape arguments that are 0 or () are honoured like numpy does"),
         ],
         "explanation": "Last sentence in full: in true_divide/floor_divide/remainder/divmod every path to the numeric ufunc or to a "
                        "normal return passed divisor.isconstant() and the other edge raises FeatureNotSupported. Every registered "
@@ -336,6 +351,7 @@ PLAN: Dict[str, dict] = {
             G("R-UNSIGNED", "differentiation does not depend on clean-up", only=in_funcs("derivative")),
             G("R-NAMES", "names never fall back to positional defaults when storage is re-wrapped"),
             G("R-LAYOUT", "derivative's column indices never meet an option-dependent names layout"),
+            G("R-CALLTAIL", "partial evaluation re-aligns by name, not by position"),
         ],
         "explanation": "Who-may-read layering of the 12 option keys over all 33 read sites; retain_* only replace a None argument; "
                        "graded=/reverse= receive *_graded/*_reverse of the right family or the function's own parameters; "
@@ -366,7 +382,8 @@ PLAN: Dict[str, dict] = {
         "not_decided": "writes performed inside numpy itself on views handed to it (assumption A-NUMPY-PURE)",
     },
     "C18": {
-        "uses": [G("R-STABLE", "no unstable sort primitive in the composed sort"), S("R-FWD", "graded/reverse/cross_truncation forwarded"),
+        "uses": [G("R-STABLE", "no unstable sort primitive in the composed sort"), S("R-FWD", "graded/reverse/cross_truncation forwarded", only=in_files("numpoly/utils/", "construct/monomial.py")),
+                 G("R-BINDEX", "the inverted ordering reverses rows only"),
                  G("R-DIVGUARD", "cross_truncate divides by the bound only after excluding negative and zero components"),
                  G("R-OPT-PAIRING", "glexindex/monomial/bindex forward graded/reverse to their callee", only=in_files("numpoly/utils/", "construct/monomial.py"))],
         "explanation": "glexsort's second (graded) sort is stable; glexindex/bindex/monomial forward graded/reverse/"
@@ -394,6 +411,7 @@ PLAN: Dict[str, dict] = {
         "uses": [
             G("R-CODEC", "key codec is one constant with opposite signs at encode/decode sites"),
             G("R-PYX-MUL", "the product-key builder does not narrow"),
+            G("R-EXPDTYPE", "exponent matrices are never created with a coefficient dtype"),
             G("R-HEADER", "header delimiters are outside the key alphabet; decoding is strict", only=msg("delimiter", "errors=", "HEADER_TEMPLATE")),
             G("R-ALIAS", "the constructor does not shift a caller's exponent array in place", only=lambda f: f.function.endswith("__new__") or "numpoly/construct/" in f.relpath),
         ],
